@@ -221,8 +221,12 @@ func checkC12(r *Run) {
 				} else {
 					r3.Bad(key, in.Pos(), "the retry handle must pass dup=true")
 				}
+			case isK && !b:
+				// any other caller: a first transmission (e.g. the retrying client issuing a request directly) —
+				// legitimate as long as it is not one of publishImpl's own retry handles
+				r3.OK(key, in.Pos(), "first transmission from %s passes dup=false", FuncName(f))
 			default:
-				r3.Bad(key, in.Pos(), "unexpected caller of %s", FuncName(pub))
+				r3.Bad(key, in.Pos(), "%s calls %s with a DUP flag that is not the constant false of a first transmission", FuncName(f), FuncName(pub))
 			}
 		})
 	}
